@@ -448,8 +448,52 @@ Definition req_begin (m : msg) : N := int_field (get_field T_BeginSeqNo (m_body 
 Definition req_end (m : msg) : N := int_field (get_field T_EndSeqNo (m_body m)).
 Definition range_bad (b e : N) : bool := ((e <? b) && negb (e =? 0)) || (b =? 0).
 
-Theorem resend_plan : forall s seqnum m r,
-  enforce sc now seqnum m s = (inl r, s, []) ->
+(* what handle_resend_request does after enforce(seqnum, msg): the same text as in Sess.Session *)
+Definition resend_body (seqnum : N) (m : msg) : M bool :=
+  bind get (fun s =>
+  if negb (s_state s =? st_resend_request_received) then
+    let b := int_field (get_field T_BeginSeqNo (m_body m)) in
+    let e := int_field (get_field T_EndSeqNo (m_body m)) in
+    bind
+    (if ((e <? b) && negb (e =? 0)) || (b =? 0) then
+       bind (handle_outbound_reject sc now seqnum (Some (m_type m)) txt_badrange) (fun _ => ret tt)
+     else if negb (p_attached (s_per s)) then
+       let nxt := s_next_send s in
+       let nseq := if nxt <=? b then b + 1 else nxt in
+       bind (do_send sc now (generate_sequence_reset sc nseq true) b false) (fun _ =>
+       modify (w_next_send nseq))
+     else
+       bind (set_state st_resend_request_received) (fun _ =>
+       let interrupted := s_next_send s in
+       let last_seq := p_last (s_per s) in
+       let finish := if e =? 0 then last_seq else e in
+       match p_first_from (s_per s) b with
+       | None => retrans_final sc now b interrupted 0
+       | Some start =>
+         if finish <? b then retrans_final sc now b interrupted 0
+         else
+           bind (retrans_loop sc decode now (S (N.to_nat (N.min (finish + 1 - start) 100000))) b finish 0 (start - 1)) (fun last =>
+           retrans_final sc now b interrupted last)
+       end))
+    (fun _ => ret true)
+  else ret true).
+
+Lemma handle_is_enforce_then_body : forall seqnum m,
+  handle_resend_request sc decode now seqnum m = bind (enforce sc now seqnum m) (fun _ => resend_body seqnum m).
+Proof. reflexivity. Qed.
+
+(* enforce lets the request through (it may have sent our own ResendRequest and changed the state): the
+   answer is whatever enforce emitted followed by the body's answer in the state enforce left *)
+Lemma handle_after_enforce : forall seqnum m s r s1 e1,
+  enforce sc now seqnum m s = (inl r, s1, e1) ->
+  handle_resend_request sc decode now seqnum m s =
+  let '(x, s2, e2) := resend_body seqnum m s1 in (x, s2, (e1 ++ e2)%list).
+Proof.
+  intros seqnum m s r s1 e1 ENF. rewrite handle_is_enforce_then_body. unfold bind at 1. rewrite ENF.
+  destruct (resend_body seqnum m s1) as [[x s2] e2]. reflexivity.
+Qed.
+
+Theorem body_plan : forall s seqnum m,
   (s_state s =? st_resend_request_received) = false ->
   range_bad (req_begin m) (req_end m) = false ->
   replaying s ->
@@ -457,14 +501,14 @@ Theorem resend_plan : forall s seqnum m r,
   forallb (resendable decode) (p_store (s_per s)) = true ->
   N.of_nat (length (p_store (s_per s))) <= 100000 ->
   exists s',
-    handle_resend_request sc decode now seqnum m s =
+    resend_body seqnum m s =
       (inl true, s', out s (fst (plan (p_store (s_per s)) (s_next_send s) (req_begin m) (req_end m)))) /\
     s_next_send s' = snd (plan (p_store (s_per s)) (s_next_send s) (req_begin m) (req_end m)) /\
     s_state s' = st_continuous /\
     p_store (s_per s') = p_store (s_per s).
 Proof.
-  intros s seqnum m r ENF ST RB R WF DEC LEN.
-  unfold handle_resend_request. unfold bind at 1. rewrite ENF. unfold bind at 1. unfold get at 1.
+  intros s seqnum m ST RB R WF DEC LEN.
+  unfold resend_body. unfold bind at 1. unfold get at 1.
   rewrite ST. cbn [negb]. fold (req_begin m). fold (req_end m).
   set (b := req_begin m) in *. set (e := req_end m) in *.
   unfold range_bad in RB. rewrite RB.
@@ -529,19 +573,18 @@ Proof.
   unfold mt_sequence_reset at 1. rewrite beq_refl. rewrite !andb_false_r. reflexivity.
 Qed.
 
-Theorem resend_nopersister : forall s seqnum m r,
-  enforce sc now seqnum m s = (inl r, s, []) ->
+Theorem body_nopersister : forall s seqnum m,
   (s_state s =? st_resend_request_received) = false ->
   range_bad (req_begin m) (req_end m) = false ->
   s_closed s = false -> s_batch s = [] -> p_attached (s_per s) = false ->
   exists s',
-    handle_resend_request sc decode now seqnum m s =
+    resend_body seqnum m s =
       (inl true, s', out s (fst (plan_nopersister (s_next_send s) (req_begin m)))) /\
     s_next_send s' = snd (plan_nopersister (s_next_send s) (req_begin m)) /\
     s_state s' = s_state s.
 Proof.
-  intros s seqnum m r ENF ST RB A B D.
-  unfold handle_resend_request. unfold bind at 1. rewrite ENF. unfold bind at 1. unfold get at 1.
+  intros s seqnum m ST RB A B D.
+  unfold resend_body. unfold bind at 1. unfold get at 1.
   rewrite ST. cbn [negb]. fold (req_begin m). fold (req_end m).
   unfold range_bad in RB. rewrite RB. rewrite D. cbn [negb].
   unfold bind. rewrite do_send_gap_np by assumption. unfold modify, ret. unfold plan_nopersister. cbn [fst snd].
@@ -560,20 +603,19 @@ Proof.
     rewrite ?add_body'_type, ?add_body'_hdr, ?add_body'_eob, ?add_body'_custom, ?add_body'_noinc; cbn; auto.
 Qed.
 
-Theorem resend_reject : forall s seqnum m r,
-  enforce sc now seqnum m s = (inl r, s, []) ->
+Theorem body_reject : forall s seqnum m,
   (s_state s =? st_resend_request_received) = false ->
   range_bad (req_begin m) (req_end m) = true ->
   s_closed s = false -> s_batch s = [] ->
   exists s',
-    handle_resend_request sc decode now seqnum m s =
+    resend_body seqnum m s =
       (inl true, s', [EOut (encode sc (fst (stamp sc now s (reject_msg seqnum m))))]) /\
     s_next_send s' = s_next_send s + 1 /\
     s_state s' = s_state s.
 Proof.
-  intros s seqnum m r ENF ST RB A B.
+  intros s seqnum m ST RB A B.
   destruct (reject_msg_props seqnum m) as (P1 & P2 & P3 & P4 & P5).
-  unfold handle_resend_request. unfold bind at 1. rewrite ENF. unfold bind at 1. unfold get at 1.
+  unfold resend_body. unfold bind at 1. unfold get at 1.
   rewrite ST. cbn [negb]. fold (req_begin m). fold (req_end m).
   unfold range_bad in RB. rewrite RB.
   unfold handle_outbound_reject.
@@ -594,5 +636,207 @@ Proof.
   destruct (p_attached (s_per (touch s))); split; reflexivity.
 Qed.
 
+(* ---- through enforce: in EVERY state other than resend_request_received ------------------------------------ *)
+(* s1, e1 = the state and the events enforce leaves (e.g. our own ResendRequest and resend_request_sent when
+   the request's number is ahead); the hypotheses are about s1 *)
+Theorem resend_plan_any : forall s seqnum m r s1 e1,
+  enforce sc now seqnum m s = (inl r, s1, e1) ->
+  (s_state s1 =? st_resend_request_received) = false ->
+  range_bad (req_begin m) (req_end m) = false ->
+  replaying s1 ->
+  store_wf (p_store (s_per s1)) = true ->
+  forallb (resendable decode) (p_store (s_per s1)) = true ->
+  N.of_nat (length (p_store (s_per s1))) <= 100000 ->
+  exists s',
+    handle_resend_request sc decode now seqnum m s =
+      (inl true, s', (e1 ++ out s1 (fst (plan (p_store (s_per s1)) (s_next_send s1) (req_begin m) (req_end m))))%list) /\
+    s_next_send s' = snd (plan (p_store (s_per s1)) (s_next_send s1) (req_begin m) (req_end m)) /\
+    s_state s' = st_continuous /\
+    p_store (s_per s') = p_store (s_per s1).
+Proof.
+  intros s seqnum m r s1 e1 ENF ST RB R WF DEC LEN.
+  destruct (body_plan s1 seqnum m ST RB R WF DEC LEN) as (s' & E & REST).
+  exists s'. split; [|exact REST]. rewrite (handle_after_enforce seqnum m s r s1 e1 ENF). rewrite E. reflexivity.
+Qed.
+
+Theorem resend_plan : forall s seqnum m r,
+  enforce sc now seqnum m s = (inl r, s, []) ->
+  (s_state s =? st_resend_request_received) = false ->
+  range_bad (req_begin m) (req_end m) = false ->
+  replaying s ->
+  store_wf (p_store (s_per s)) = true ->
+  forallb (resendable decode) (p_store (s_per s)) = true ->
+  N.of_nat (length (p_store (s_per s))) <= 100000 ->
+  exists s',
+    handle_resend_request sc decode now seqnum m s =
+      (inl true, s', out s (fst (plan (p_store (s_per s)) (s_next_send s) (req_begin m) (req_end m)))) /\
+    s_next_send s' = snd (plan (p_store (s_per s)) (s_next_send s) (req_begin m) (req_end m)) /\
+    s_state s' = st_continuous /\
+    p_store (s_per s') = p_store (s_per s).
+Proof. intros s seqnum m r ENF. apply (resend_plan_any s seqnum m r s [] ENF). Qed.
+
+Theorem resend_nopersister_any : forall s seqnum m r s1 e1,
+  enforce sc now seqnum m s = (inl r, s1, e1) ->
+  (s_state s1 =? st_resend_request_received) = false ->
+  range_bad (req_begin m) (req_end m) = false ->
+  s_closed s1 = false -> s_batch s1 = [] -> p_attached (s_per s1) = false ->
+  exists s',
+    handle_resend_request sc decode now seqnum m s =
+      (inl true, s', (e1 ++ out s1 (fst (plan_nopersister (s_next_send s1) (req_begin m))))%list) /\
+    s_next_send s' = snd (plan_nopersister (s_next_send s1) (req_begin m)) /\
+    s_state s' = s_state s1.
+Proof.
+  intros s seqnum m r s1 e1 ENF ST RB A B D.
+  destruct (body_nopersister s1 seqnum m ST RB A B D) as (s' & E & REST).
+  exists s'. split; [|exact REST]. rewrite (handle_after_enforce seqnum m s r s1 e1 ENF). rewrite E. reflexivity.
+Qed.
+
+Theorem resend_nopersister : forall s seqnum m r,
+  enforce sc now seqnum m s = (inl r, s, []) ->
+  (s_state s =? st_resend_request_received) = false ->
+  range_bad (req_begin m) (req_end m) = false ->
+  s_closed s = false -> s_batch s = [] -> p_attached (s_per s) = false ->
+  exists s',
+    handle_resend_request sc decode now seqnum m s =
+      (inl true, s', out s (fst (plan_nopersister (s_next_send s) (req_begin m)))) /\
+    s_next_send s' = snd (plan_nopersister (s_next_send s) (req_begin m)) /\
+    s_state s' = s_state s.
+Proof. intros s seqnum m r ENF. apply (resend_nopersister_any s seqnum m r s [] ENF). Qed.
+
+Theorem resend_reject_any : forall s seqnum m r s1 e1,
+  enforce sc now seqnum m s = (inl r, s1, e1) ->
+  (s_state s1 =? st_resend_request_received) = false ->
+  range_bad (req_begin m) (req_end m) = true ->
+  s_closed s1 = false -> s_batch s1 = [] ->
+  exists s',
+    handle_resend_request sc decode now seqnum m s =
+      (inl true, s', (e1 ++ [EOut (encode sc (fst (stamp sc now s1 (reject_msg seqnum m))))])%list) /\
+    s_next_send s' = s_next_send s1 + 1 /\
+    s_state s' = s_state s1.
+Proof.
+  intros s seqnum m r s1 e1 ENF ST RB A B.
+  destruct (body_reject s1 seqnum m ST RB A B) as (s' & E & REST).
+  exists s'. split; [|exact REST]. rewrite (handle_after_enforce seqnum m s r s1 e1 ENF). rewrite E. reflexivity.
+Qed.
+
+Theorem resend_reject : forall s seqnum m r,
+  enforce sc now seqnum m s = (inl r, s, []) ->
+  (s_state s =? st_resend_request_received) = false ->
+  range_bad (req_begin m) (req_end m) = true ->
+  s_closed s = false -> s_batch s = [] ->
+  exists s',
+    handle_resend_request sc decode now seqnum m s =
+      (inl true, s', [EOut (encode sc (fst (stamp sc now s (reject_msg seqnum m))))]) /\
+    s_next_send s' = s_next_send s + 1 /\
+    s_state s' = s_state s.
+Proof. intros s seqnum m r ENF. apply (resend_reject_any s seqnum m r s [] ENF). Qed.
+
+(* ---- the request's own number is ahead: enforce first asks for OUR gap -------------------------------------- *)
+Lemma grr_props : forall b e,
+  m_type (generate_resend_request sc b e) = mt_resend_request /\ m_hdr (generate_resend_request sc b e) = [] /\
+  m_eob (generate_resend_request sc b e) = true /\ m_custom (generate_resend_request sc b e) = 0 /\
+  m_noinc (generate_resend_request sc b e) = false.
+Proof.
+  intros. unfold generate_resend_request.
+  rewrite ?add_body'_type, ?add_body'_hdr, ?add_body'_eob, ?add_body'_custom, ?add_body'_noinc. cbn. auto.
+Qed.
+
+Definition after_new (s : sess) : sess :=
+  let s1 := touch s in
+  let s2 := w_per (if p_attached (s_per s1) then p_put_ctrl (s_per s1) (s_next_send s1 + 1) (s_next_recv s1) else s_per s1) s1 in
+  w_next_send (s_next_send s2 + 1) s2.
+
+Theorem enforce_ahead : forall s seqnum m,
+  s_state s = st_continuous ->
+  compid_check m s = (inl tt, s, []) ->
+  beq (m_type m) mt_sequence_reset = false ->
+  s_next_recv s < seqnum ->
+  s_closed s = false -> s_batch s = [] ->
+  is_admin sc mt_resend_request = true ->
+  enforce sc now seqnum m s =
+    (inl true, w_state st_resend_request_sent (after_new s),
+     [EOut (encode sc (fst (stamp sc now s (generate_resend_request sc (s_next_recv s) 0))))]).
+Proof.
+  intros s seqnum m ST CC NT LT CL BA ADM2.
+  destruct (grr_props (s_next_recv s) 0) as (P1 & P2 & P3 & P4 & P5).
+  unfold enforce. unfold bind at 1. unfold get at 1. rewrite ST.
+  replace (is_established st_continuous) with true by reflexivity.
+  replace (st_continuous =? st_logon_received) with false by reflexivity. cbn [negb].
+  unfold bind at 1. unfold bind at 1. rewrite CC.
+  rewrite NT. cbn [negb].
+  unfold sequence_check. unfold bind, get.
+  replace (s_next_recv s <? seqnum) with true by (symmetry; apply N.ltb_lt; exact LT).
+  rewrite ST. replace (st_continuous =? st_continuous) with true by reflexivity.
+  unfold do_send, send. cbn [N.eqb].
+  rewrite send_process_open by assumption. cbv zeta.
+  assert (ND : snd (stamp sc now s (generate_resend_request sc (s_next_recv s) 0)) = false).
+  { unfold stamp. rewrite P2.
+    set (m1 := if has_field T_SenderCompID [] then _ else _).
+    set (m2 := if has_field T_TargetCompID (m_hdr m1) then m1 else _).
+    assert (H2 : has_field T_MsgSeqNum (m_hdr m2) = false).
+    { subst m2 m1. cbn [has_field get_field]. destruct (has_field T_TargetCompID _);
+        rewrite ?has_hdr_add_other by discriminate; rewrite P2; reflexivity. }
+    rewrite H2. reflexivity. }
+  rewrite ND. rewrite P1, P4, P5, ADM2. cbn [N.eqb negb andb beq mt_resend_request mt_sequence_reset].
+  unfold set_state, modify, ret, after_new. cbn [app fst snd negb]. reflexivity.
+Qed.
+
+Lemma after_new_facts : forall s, s_batch s = [] ->
+  s_par (after_new s) = s_par s /\ s_snd (after_new s) = s_snd s /\ s_tgt (after_new s) = s_tgt s /\
+  s_closed (after_new s) = s_closed s /\ s_batch (after_new s) = [] /\
+  s_next_send (after_new s) = s_next_send s + 1 /\ s_next_recv (after_new s) = s_next_recv s /\
+  p_store (s_per (after_new s)) = p_store (s_per s) /\ p_attached (s_per (after_new s)) = p_attached (s_per s).
+Proof.
+  intros s B. unfold after_new, touch. cbn.
+  destruct (p_attached (s_per s)) eqn:A; cbn; rewrite ?p_put_ctrl_store; repeat split; try reflexivity; try assumption.
+  unfold p_attached in *. rewrite p_put_ctrl_kind. exact A.
+Qed.
+
+(* the answer to a request whose own number is ahead: our ResendRequest, then the replay planned from
+   next_send + 1 -- in particular never an empty answer *)
+Theorem resend_plan_ahead : forall s seqnum m,
+  s_state s = st_continuous ->
+  compid_check m s = (inl tt, s, []) ->
+  beq (m_type m) mt_sequence_reset = false ->
+  s_next_recv s < seqnum ->
+  is_admin sc mt_resend_request = true ->
+  range_bad (req_begin m) (req_end m) = false ->
+  replaying s ->
+  store_wf (p_store (s_per s)) = true ->
+  forallb (resendable decode) (p_store (s_per s)) = true ->
+  N.of_nat (length (p_store (s_per s))) <= 100000 ->
+  exists s' s1,
+    s_state s1 = st_resend_request_sent /\ s_next_send s1 = s_next_send s + 1 /\
+    handle_resend_request sc decode now seqnum m s =
+      (inl true, s',
+       (EOut (encode sc (fst (stamp sc now s (generate_resend_request sc (s_next_recv s) 0)))) ::
+        out s1 (fst (plan (p_store (s_per s)) (s_next_send s + 1) (req_begin m) (req_end m))))) /\
+    s_next_send s' = snd (plan (p_store (s_per s)) (s_next_send s + 1) (req_begin m) (req_end m)) /\
+    s_state s' = st_continuous /\
+    p_store (s_per s') = p_store (s_per s).
+Proof.
+  intros s seqnum m ST CC NT LT ADM2 RB R WF DEC LEN.
+  destruct R as (CL & BA & ASA & ATT).
+  pose proof (enforce_ahead s seqnum m ST CC NT LT CL BA ADM2) as ENF.
+  destruct (after_new_facts s BA) as (F1 & F2 & F3 & F4 & F5 & F6 & F7 & F8 & F9).
+  assert (R1 : replaying (w_state st_resend_request_sent (after_new s))).
+  { unfold replaying. unfold w_state at 1 2 3 4. cbn [s_closed s_batch s_par s_per].
+    rewrite F1, F4, F5, F9. repeat split; assumption. }
+  set (s1 := w_state st_resend_request_sent (after_new s)) in *.
+  assert (ST1 : (s_state s1 =? st_resend_request_received) = false) by reflexivity.
+  assert (PS : p_store (s_per s1) = p_store (s_per s)) by exact F8.
+  assert (NS : s_next_send s1 = s_next_send s + 1) by exact F6.
+  destruct (resend_plan_any s seqnum m true s1 _ ENF ST1 RB R1) as (s' & E & A1 & A2 & A3);
+    try (rewrite PS; assumption).
+  rewrite PS, NS in *.
+  exists s', s1. split; [reflexivity|]. split; [exact NS|]. split; [exact E|]. repeat split; assumption.
+Qed.
+
+(* the one state in which a request goes unanswered: a replay is already running *)
+Theorem body_busy : forall s seqnum m,
+  (s_state s =? st_resend_request_received) = true -> resend_body seqnum m s = (inl true, s, []).
+Proof. intros s seqnum m ST. unfold resend_body. unfold bind, get. rewrite ST. reflexivity. Qed.
+
 End Inb.
+
 End P.
